@@ -90,6 +90,10 @@ class Execution:
         self.shared_local = set()
         self.steps = [0] * self.n
         self.max_choice = max(self.choices) if self.choices else -1
+        # optional state invariant, evaluated at every scheduling point:
+        # on_point(thread index, loc) -> None or a description of a violation
+        self.on_point = None
+        self.invariant_violation = None
 
     # -- identity
     def current_index(self):
@@ -171,6 +175,10 @@ class Execution:
     def point(self, i, loc):
         if self.horizon:
             return
+        if self.on_point is not None and self.invariant_violation is None:
+            bad = self.on_point(i, loc)
+            if bad:
+                self.invariant_violation = (i, loc, bad)
         # points with a single enabled thread carry no choice: skip quickly
         others = False
         for j in range(self.n):
@@ -248,13 +256,17 @@ class Execution:
 
 
 def explore(make_bodies, bound, prefixes, local_classes, check,
-            first_alternatives=None, budget=None, shard=None):
+            first_alternatives=None, budget=None, shard=None,
+            preempt_files=None):
     """Iterative preemption bounding.
 
     make_bodies() -> list of zero-argument callables (fresh state each time)
     check(execution) is called for every completed execution.
     shard = (k, n): only the sub-trees whose first deviation index % n == k
     (the deviation-free execution is run by every shard).
+    preempt_files: if given, preemptions (switching away from a runnable
+    thread) are explored only at lines of these source files; switches at
+    thread exit / lock blocking are always explored.
     Returns statistics.
     """
     stats = {'schedules': 0, 'points_max': 0, 'bound': bound,
@@ -282,6 +294,9 @@ def explore(make_bodies, bound, prefixes, local_classes, check,
             cost = pre[i] + (1 if cur_enabled else 0)
             if cost > bound:
                 continue
+            if cur_enabled and preempt_files is not None and \
+                    loc[0] not in preempt_files:
+                continue        # stated bound: preemption sites restricted
             for alt in range(1, len(en)):
                 nc = dict(choices)
                 nc[i] = alt
